@@ -21,6 +21,7 @@ import (
 	"github.com/jig/lisp/marshaler"
 	"github.com/jig/lisp/printer"
 	"github.com/jig/lisp/reader"
+	"github.com/jig/lisp/simhook"
 
 	. "github.com/jig/lisp/types"
 )
@@ -1266,10 +1267,13 @@ func readLine(prompt string) (string, error) {
 }
 
 func sleep(ctx context.Context, ms int) error {
+	simBlk := simhook.BeforeBlock(ctx, "sleep", time.Millisecond*time.Duration(ms))
 	select {
 	case <-ctx.Done():
+		simhook.AfterBlock(simBlk, "ctx")
 		return errors.New("timeout while evaluating expression")
 	case <-time.After(time.Millisecond * time.Duration(ms)):
+		simhook.AfterBlock(simBlk, "timer")
 		return nil
 	}
 }
